@@ -41,8 +41,9 @@ ASSUMPTIONS = [
     "background (black if unknown); images whose pixel size equals the render resolution with "
     "bi-level alpha need none of this (expected = source pixels)",
     "alpha threshold: a pixel is opaque if alpha/255 is above the threshold, transparent if below; "
-    "a pixel within half an 8-bit level of the threshold (2|a*den - 255*num| <= den; contains "
-    "'exactly at the threshold') is accepted either way",
+    "a pixel exactly at the threshold or less than half an 8-bit level below it "
+    "(0 <= 255*num - a*den <= den/2, i.e. the threshold quantised to the nearest 8-bit level) is "
+    "accepted either way",
     "kitty workaround (documented deviation, DESIGN 2.5): on kitty with a known terminal "
     "background, a half-cell shown through the cell BACKGROUND whose colour equals the terminal "
     "background must be emitted with r+1 (r-1 for r=255); never otherwise",
@@ -382,6 +383,7 @@ def spec_to_code(rep: Report, dump_res, extras, expect_enumerated: int | None):
 def prepare_extras(extras):
     """Fill in the loop-level image (what the model is given) of each extra."""
     for e in extras:
+        e["rows"] = [[tuple(px) for px in r] for r in e["rows"]]  # (lists when read from JSON)
         rows, model_alpha = loop_level(e["rows"], e["alpha_arg"], e["mode"], e["tbg"] or None)
         h2, w = len(rows), len(rows[0])
         e["alpha"] = model_alpha
@@ -599,7 +601,7 @@ def mutant_cfg(variant: str) -> str:
         raise tlc.MachineryError("MC_BlockLine.cfg does not set Variant = \"code\"")
     d = OUTDIR / "cfg"
     d.mkdir(parents=True, exist_ok=True)
-    p = d / f"MC_BlockLine_{variant}.cfg"
+    p = d / f"MC_BlockLine_{variant}-{os.getpid()}.cfg"
     p.write_text(text.replace('Variant = "code"', f'Variant = "{variant}"'))
     return str(p)
 
@@ -654,6 +656,14 @@ def judge_models(rep: Report, results, mutants):
 
 # ----------------------------------------------------------------------------------------------
 def main(rep: Report, replay: dict | None) -> None:
+    try:
+        _main(rep, replay)
+    finally:  # scratch files of this process
+        for f in itertools.chain(OUTDIR.glob(f"*-{os.getpid()}.json"), (OUTDIR / "cfg").glob(f"*-{os.getpid()}.cfg")):
+            f.unlink(missing_ok=True)
+
+
+def _main(rep: Report, replay: dict | None) -> None:
     rep.assumptions += ASSUMPTIONS
     rep.rule = (
         "spec->code: every 1-line image of width <= W (quick 2, thorough 3) over 3 opaque colours + 2 "
@@ -676,7 +686,7 @@ def main(rep: Report, replay: dict | None) -> None:
                      mode=sc["mode"], alpha_arg=sc["alpha_arg"])
             extras = prepare_extras([e])
             path = extras_file(extras, f"extras-replay-{os.getpid()}.json")
-            zero = OUTDIR / "cfg" / "MC_BlockLineDump0.cfg"
+            zero = OUTDIR / "cfg" / f"MC_BlockLineDump0-{os.getpid()}.cfg"
             zero.parent.mkdir(parents=True, exist_ok=True)
             zero.write_text((tlc.SPECS / "MC_BlockLineDump.cfg").read_text().replace("W = 2", "W = 0"))
             res = tlc.run("MC_BlockLine", str(zero), workers=1, timeout=300, deadlock=False,
